@@ -35,10 +35,18 @@ PROP = {
             "^TestVerifC03", ["frag-feedseq", "frag-split"], race=True,
             timeout_quick=600, timeout_thorough=3600),
         job("server", "core", "./server/", "server", _files("core/server", "c03_udp_test.go"),
-            "^TestVerifC03", ["srv-feed", "srv-reply", "srv-loop", "srv-run"], race=True,
+            "^TestVerifC03Server", ["srv-feed", "srv-reply", "srv-loop", "srv-run"], race=True,
             timeout_quick=600, timeout_thorough=3600),
         job("client", "core", "./client/", "client", _files("core/client", "c03_udp_test.go"),
-            "^TestVerifC03", ["cli-feed", "cli-run", "cli-send", "cli-tcpresp"], race=True,
+            "^TestVerifC03Client", ["cli-feed", "cli-run", "cli-send", "cli-tcpresp"], race=True,
+            timeout_quick=600, timeout_thorough=3600),
+        # concurrency workloads in jobs of their own: the flood runs in goroutines of the code under test
+        # (run(), Run, receive loops); a panic there is process-fatal and must not take other parts' results along
+        job("client-conc", "core", "./client/", "client", _files("core/client", "c03_udp_test.go", "c03_conc_test.go"),
+            "^TestVerifC03ConcClient", ["cli-conc-feed", "cli-conc-run"], race=True,
+            timeout_quick=600, timeout_thorough=3600),
+        job("server-conc", "core", "./server/", "server", _files("core/server", "c03_udp_test.go", "c03_conc_test.go"),
+            "^TestVerifC03ConcServer", ["srv-conc"], race=True,
             timeout_quick=600, timeout_thorough=3600),
         job("quic", "extras", "./sniff/internal/quic/", "quic", _files("extras/sniff/internal/quic", "c03_quic_test.go"),
             "^TestVerifC03", ["quic-header", "quic-unprotect", "quic-crypto"], race=True,
@@ -85,7 +93,14 @@ PROP = {
              "stateful receivers (Defragger, server and client UDP session managers incl. their own goroutines, reply path with "
              "*quic.DatagramTooLargeError for limits <=header/0/negative, Gecko reassembly from up to 700 sources incl. cap floods, "
              "punch/STUN demultiplexer, speed-test handler and client over scripted connections; hostile plaintext behind valid "
-             "QUIC Initial protection made by a reference RFC 9001 sealer). Oracle: no panic (recover in the calling goroutine -> "
+             "QUIC Initial protection made by a reference RFC 9001 sealer); (e) aggregates of individually valid inputs: complete "
+             "fragment sets summing to 4095/4096/4097/8 KiB/64 KiB/255x1200..1400 bytes in order/reversed/shuffled with duplicates, "
+             "thousands of sessions, more messages than a session's channel holds, CRYPTO frame sums around the 256 KiB cap, "
+             "maximal Gecko chunk sets and 400 messages pending at once, event-channel overflow; (f) concurrency: the peer's "
+             "flood for a session (backlog empty/almost full/full/overfull) while the application closes/reopens that session "
+             "(client feed and run(); the closer acts when the receive path is parked in a synctest bubble, and free-running "
+             "under -race), and the client's datagrams while the server session is closed by a socket error, a failing reply "
+             "or the idle sweeper (datagrams timed onto the sweeper's instants in a bubble). Oracle: no panic (recover in the calling goroutine -> "
              "key '<entry>-panic'; panic elsewhere / fatal error / checkptr kills the child -> key 'crash:...'), and after hostile "
              "input the same object processes a well-formed input correctly ('<entry>-service-stops'). Distinct & non-trivial = "
              "distinct (entry point, input bytes) executed; ev_accepted/ev_rejected and ev_canary_ok show that both the accepting "
